@@ -144,14 +144,19 @@ func c20Decoders(tag byte, body []byte, kind byte) *hx.Failure {
 		if tag == 0x7F {
 			wantLang, wantPurpose = string(body[1:4]), body[4]>>2
 		}
-		if got := d.DecodeTTMLIso639LanguageCode(); got != wantLang {
-			return hx.Failf("desc-ttml-lang", "%s: DecodeTTMLIso639LanguageCode() = %q, want %q", what, got, wantLang)
-		}
-		if got := d.DecodeTTMLSubtitlePurpose(); got != wantPurpose {
-			return hx.Failf("desc-ttml-purpose", "%s: DecodeTTMLSubtitlePurpose() = %#x, want %#x", what, got, wantPurpose)
-		}
-		if d.IsTTMLSubtitlingDescriptor() != (tag == 0x7F) {
-			return hx.Failf("desc-isttml", "%s: IsTTMLSubtitlingDescriptor() = %v", what, d.IsTTMLSubtitlingDescriptor())
+		// an extension descriptor (tag 0x7F) whose descriptor_tag_extension is not 0x20 is neither a TTML descriptor nor
+		// "a descriptor of another tag": what the TTML decoders say about it is not asserted
+		ttmlProper := tag == 0x7F && len(body) >= 1 && body[0] == 0x20
+		if tag != 0x7F || ttmlProper {
+			if got := d.DecodeTTMLIso639LanguageCode(); got != wantLang {
+				return hx.Failf("desc-ttml-lang", "%s: DecodeTTMLIso639LanguageCode() = %q, want %q", what, got, wantLang)
+			}
+			if got := d.DecodeTTMLSubtitlePurpose(); got != wantPurpose {
+				return hx.Failf("desc-ttml-purpose", "%s: DecodeTTMLSubtitlePurpose() = %#x, want %#x", what, got, wantPurpose)
+			}
+			if d.IsTTMLSubtitlingDescriptor() != (tag == 0x7F) {
+				return hx.Failf("desc-isttml", "%s: IsTTMLSubtitlingDescriptor() = %v", what, d.IsTTMLSubtitlingDescriptor())
+			}
 		}
 		// the tag-extension test belongs to the extension descriptor: under any other tag it has nothing to say
 		if got, want := d.IsTTMLDescTagExtension(), tag == 0x7F && len(body) >= 1 && body[0] == 0x20; got != want {
@@ -253,7 +258,7 @@ func checkC20(c CaseC20, x *hx.Ctx) *hx.Failure {
 var propC20 = hx.Register(hx.Prop[CaseC20]{ID: "C20", Gen: genC20, Check: checkC20})
 
 func c20Rule() {
-	hx.Rec("C20").SetRule("cases: a stream_type code, a PID, a well-formed descriptor of one of the decoded kinds (ISO-639 with 4k-byte body, maximum_bitrate < 2^21 with random reserved bits, registration 4..12 bytes with/without DOVI, TTML extension body >= 5 bytes with tag extension 0x20 or other, Dolby Vision with profile 0..127 and level 0..31, decoded with eight different originalCodec arguments), the same body under another drawn tag, and a small list of stream types for the PMT-level by-PID query (through a reference-built PMT decoded by NewPMT). Oracle: the statement's code lists typed into the harness; decoder definitions; neutral values (0, \"\", 0xFF, false) under other tags. Enumerated: all 256 stream types (lookup, constructor, decoded-from-PMT, by-PID query); every decoder's body under all 256 tags. Non-trivial: code in or adjacent to a positive list, or the descriptor's tag differs from the decoder's tag.",
+	hx.Rec("C20").SetRule("cases: a stream_type code, a PID, a well-formed descriptor of one of the decoded kinds (ISO-639 with 4k-byte body, maximum_bitrate < 2^21 with random reserved bits, registration 4..12 bytes with/without DOVI, TTML extension body >= 5 bytes with tag extension 0x20 (bodies with another tag extension are generated but only the tag-extension test and the stream-level TTML test are asserted on them), Dolby Vision with profile 0..127 and level 0..31, decoded with eight different originalCodec arguments), the same body under another drawn tag, and a small list of stream types for the PMT-level by-PID query (through a reference-built PMT decoded by NewPMT). Oracle: the statement's code lists typed into the harness; decoder definitions; neutral values (0, \"\", 0xFF, false) under other tags. Enumerated: all 256 stream types (lookup, constructor, decoded-from-PMT, by-PID query); every decoder's body under all 256 tags. Non-trivial: code in or adjacent to a positive list, or the descriptor's tag differs from the decoder's tag.",
 		"maximum_bitrate below 2^21 and Dolby Vision level below 32 (the ranges the quantifier text gives)",
 		"a decoder is only applied to bodies that are well-formed for it, or under a tag it does not decode")
 }
